@@ -116,7 +116,10 @@ pub fn c11_oracle(c: &DelCase, st: &mut Stats) -> PResult {
                 if del {
                     ensure!(item.delete().is_ok(), "C11 delete-fails", "{}", ctxs());
                     match item.delete() {
-                        Err(e) => ensure!(e.to_string() == "Void record", "C11 second-delete-error-kind", "{:?}", e.to_string()),
+                        Err(e) => {
+                            let e = estr(e);
+                            ensure!(e.starts_with("VoidRecord|"), "C11 second-delete-error-kind", "{:?}", e)
+                        }
                         Ok(()) => fail!("C11 second-delete-succeeds", "{}", ctxs()),
                     }
                 }
@@ -195,7 +198,10 @@ pub fn c11_oracle(c: &DelCase, st: &mut Stats) -> PResult {
                 deleted.push(ttl);
                 // second delete through the same cursor
                 match item.delete() {
-                    Err(e) => ensure!(e.to_string() == "Void record", "C11 second-delete-error-kind", "{:?}; {}", e.to_string(), ctxs()),
+                    Err(e) => {
+                        let e = estr(e);
+                        ensure!(e.starts_with("VoidRecord|"), "C11 second-delete-error-kind", "{:?}; {}", e, ctxs())
+                    }
                     Ok(()) => fail!("C11 second-delete-succeeds", "{}", ctxs()),
                 }
                 let again = item.parsed_packet().packet.clone().unwrap_or_default();
